@@ -219,6 +219,18 @@ Definition second_phase (cs : code_shape) (cf : config) (ok : bool) (w : world) 
 (* ---------------------------------------------------------------- WithGlobalTx over scope trees *)
 Definition out_ok (o : outcome) : bool := match o with ONil => true | _ => false end.
 
+(* children of scope `id`, run in order on the scope's own context variable; after each
+   the callback looks at its context (EAfter) *)
+Definition kids_with (rs : scope -> world -> gtx -> world * gtx * result * list ev) (id : N) :=
+  fix kids_loop (ks : list scope) (w : world) (v : gtx) {struct ks} : world * gtx * list ev :=
+    match ks with
+    | [] => (w, v, [])
+    | k :: ks' =>
+        let '(wa, va, _, ea) := rs k w v in
+        let '(wb, vb, eb) := kids_loop ks' wa va in
+        (wb, vb, ea ++ [EAfter id (g_xid va) (g_role va) (g_name va)] ++ eb)
+    end.
+
 Section Run.
   Variable cs : code_shape.
   Variable cf : config.
@@ -233,20 +245,14 @@ Section Run.
         let back (vend : gtx) := if shared then (if cs_restores cs then v else vend) else v in
         if negb ok then (w1, back v1, RErrC, es1 ++ [ERet id RErrC])
         else
-          let '(w3, v3, es3) :=
-            (fix kids_loop (ks : list scope) (w : world) (v : gtx) : world * gtx * list ev :=
-               match ks with
-               | [] => (w, v, [])
-               | k :: ks' =>
-                   let '(wa, va, _, ea) := run_scope k w v in
-                   let '(wb, vb, eb) := kids_loop ks' wa va in
-                   (wb, vb, ea ++ [EAfter id (g_xid va) (g_role va) (g_name va)] ++ eb)
-               end) kids w1 v1 in
+          let '(w3, v3, es3) := kids_with run_scope id kids w1 v1 in
           let '(w4, sperr, es4) := second_phase cs cf (out_ok out) w3 v3 in
           let res := if out_ok out && negb sperr then RNilC else RErrC in
           (w4, back v3, res,
            es1 ++ [EEnter id (g_xid v1) (g_role v1) (g_name v1)] ++ es3 ++ es4 ++ [ERet id res])
     end.
+
+  Definition run_kids := kids_with run_scope.
 End Run.
 
 (* the trace the harness can see: frozen when the cap is hit *)
@@ -286,28 +292,30 @@ Definition disposition_of (m : mode) (has_tx : bool) : disposition :=
 
 Definition res_of (o : outcome) : result := if out_ok o then RNilC else RErrC.
 
+Definition spec_kids_with (sp : scope -> N -> N -> list sev * N) :=
+  fix sk (ks : list scope) (cur next : N) {struct ks} : list sev * N :=
+    match ks with
+    | [] => ([], next)
+    | k :: ks' => let '(e1, n1) := sp k cur next in
+                  let '(e2, n2) := sk ks' cur n1 in (e1 ++ e2, n2)
+    end.
+
 (* cur = xid of the current transaction (0 = none); next = next xid the coordinator hands out *)
 Fixpoint spec_scope (s : scope) (cur next : N) {struct s} : list sev * N :=
   match s with
   | Scope m id _ kids out =>
-      let spec_kids :=
-        fix sk (ks : list scope) (cur next : N) : list sev * N :=
-          match ks with
-          | [] => ([], next)
-          | k :: ks' => let '(e1, n1) := spec_scope k cur next in
-                        let '(e2, n2) := sk ks' cur n1 in (e1 ++ e2, n2)
-          end in
       match disposition_of m (negb (cur =? 0)) with
       | DFail => ([SRet id RErrC], next)
-      | DJoin => let '(es, n') := spec_kids kids cur next in
+      | DJoin => let '(es, n') := spec_kids_with spec_scope kids cur next in
                  (SEnter id cur :: es ++ [SRet id (res_of out)], n')
-      | DNone => let '(es, n') := spec_kids kids 0 next in
+      | DNone => let '(es, n') := spec_kids_with spec_scope kids 0 next in
                  (SEnter id 0 :: es ++ [SRet id (res_of out)], n')
-      | DNew => let '(es, n') := spec_kids kids next (next + 1) in
+      | DNew => let '(es, n') := spec_kids_with spec_scope kids next (next + 1) in
                 (SReq (QBegin id) :: SEnter id next :: es ++
                  [SReq (if out_ok out then QCommit next else QRollback next); SRet id (res_of out)], n')
       end
   end.
+Definition spec_kids := spec_kids_with spec_scope.
 
 (* what of an implementation trace the documented semantics speaks about *)
 Fixpoint project (t : list ev) : list sev :=
